@@ -18,7 +18,8 @@ Fixpoint zadd (id : N) (d : Z) (l : list (N * Z)) : list (N * Z) :=
   | (k, v) :: r => if k =? id then (k, (v + d)%Z) :: r else (k, v) :: zadd id d r
   end.
 
-Definition frames_to (x : side) (t : tstep) : list wframe := match x with Cl => t_toC t | Sv => t_toS t end.
+Definition oframes_to (x : side) (t : tstep) : list oframe := match x with Cl => t_toC t | Sv => t_toS t end.
+Definition frames_to (x : side) (t : tstep) : list wframe := wire (oframes_to x t).
 
 (* last value of setting [sid] in a SETTINGS payload, if any (values are processed in order) *)
 Fixpoint last_setting (sid : N) (l : list (N * N)) (cur : option N) : option N :=
@@ -43,87 +44,122 @@ Definition payload_len (f : wframe) : N :=
   | WWinUpd _ _ => 4
   end.
 
-(* ------------------------------------------------ receiver ledger (C09 a,b) *)
-(* Kept by endpoint x from what it SENT (SETTINGS, WINDOW_UPDATE) and what it
-   RECEIVED (DATA, SETTINGS ACK). *)
-Record led := mkLed {
+(* ------------------------------------------------ receiver ledgers (C09 a,b) *)
+(* Kept by endpoint x from what it SENT (SETTINGS, WINDOW_UPDATE) and what it RECEIVED
+   (DATA, SETTINGS ACK).  Two independent ledgers: granted credit, and frame-size limits. *)
+
+(* ---- credit *)
+Record wled := mkWl {
   l_init : Z;                 (* its current SETTINGS_INITIAL_WINDOW_SIZE *)
   l_conn : Z;                 (* 65535 + sum WU(0) - sum DATA received *)
-  l_adj : list (N * Z);       (* per stream: sum WU(s) - sum DATA received on s *)
+  l_adj : list (N * Z)        (* per stream: sum WU(s) - sum DATA received on s *)
+}.
+Definition wled0 : wled := mkWl (Z.of_N default_initial_window) (Z.of_N default_initial_window) [].
+Definition led_window (l : wled) (id : N) : Z := (l_init l + zget id (l_adj l))%Z.
+
+(* endpoint x sent frame f *)
+Definition wl_sent (l : wled) (f : rframe) : wled :=
+  match f with
+  | RWinUpd id inc =>
+      if id =? 0 then mkWl (l_init l) (l_conn l + Z.of_N inc)%Z (l_adj l)
+      else mkWl (l_init l) (l_conn l) (zadd id (Z.of_N inc) (l_adj l))
+  | RSettings false s =>
+      mkWl (match last_setting 4 s None with Some v => Z.of_N v | None => l_init l end) (l_conn l) (l_adj l)
+  | _ => l
+  end.
+
+(* endpoint x received frame f: new ledger, and whether the frame respected both windows *)
+Definition wl_recv (l : wled) (f : wframe) : wled * bool :=
+  match f with
+  | WData id _ d =>
+      let n := Z.of_N (len d) in
+      (mkWl (l_init l) (l_conn l - n)%Z (zadd id (- n)%Z (l_adj l)),
+       (n <=? l_conn l)%Z && (n <=? led_window l id)%Z)
+  | _ => (l, true)
+  end.
+
+Fixpoint wl_recv_all (l : wled) (fs : list wframe) : wled * bool :=
+  match fs with
+  | [] => (l, true)
+  | f :: r =>
+      let '(l1, a1) := wl_recv l f in
+      let '(l2, a2) := wl_recv_all l1 r in
+      (l2, a1 && a2)
+  end.
+
+(* one trace step seen from endpoint x: first what x sent (if the event is x's), then what x was sent *)
+Definition wl_step (x : side) (l : wled) (t : tstep) : wled * bool :=
+  let l1 := if side_eqb (e_from (t_ev t)) x then wl_sent l (e_frame (t_ev t)) else l in
+  wl_recv_all l1 (frames_to x t).
+
+Fixpoint wl_run (x : side) (l : wled) (tr : list tstep) : wled * bool :=
+  match tr with
+  | [] => (l, true)
+  | t :: r =>
+      let '(l1, a1) := wl_step x l t in
+      let '(l2, a2) := wl_run x l1 r in
+      (l2, a1 && a2)
+  end.
+
+Definition windows_respected (x : side) (tr : list tstep) : bool := snd (wl_run x wled0 tr).
+Definition final_wled (x : side) (tr : list tstep) : wled := fst (wl_run x wled0 tr).
+
+(* ---- frame sizes *)
+Record sled := mkSl {
   l_max_cur : N;              (* its latest SETTINGS_MAX_FRAME_SIZE *)
   l_max_acked : N;            (* the value in force by the last acknowledged SETTINGS *)
   l_max_pending : list N;     (* values of its not yet acknowledged SETTINGS frames, oldest first *)
   l_max_ever : N              (* the largest value it has ever announced (incl. the initial 16384) *)
 }.
-
-Definition led0 : led :=
-  mkLed (Z.of_N default_initial_window) (Z.of_N default_initial_window) []
-        initial_max_frame_size initial_max_frame_size [] initial_max_frame_size.
-
-Definition led_window (l : led) (id : N) : Z := (l_init l + zget id (l_adj l))%Z.
+Definition sled0 : sled := mkSl initial_max_frame_size initial_max_frame_size [] initial_max_frame_size.
 
 (* the largest frame the endpoint must still be prepared to receive *)
-Definition led_tolerated (l : led) : N := fold_left N.max (l_max_pending l) (l_max_acked l).
+Definition led_tolerated (l : sled) : N := fold_left N.max (l_max_pending l) (l_max_acked l).
 
-(* endpoint x sent frame f *)
-Definition led_sent (l : led) (f : rframe) : led :=
+Definition sl_sent (l : sled) (f : rframe) : sled :=
   match f with
-  | RWinUpd id inc =>
-      if id =? 0
-      then mkLed (l_init l) (l_conn l + Z.of_N inc)%Z (l_adj l) (l_max_cur l) (l_max_acked l) (l_max_pending l) (l_max_ever l)
-      else mkLed (l_init l) (l_conn l) (zadd id (Z.of_N inc) (l_adj l)) (l_max_cur l) (l_max_acked l) (l_max_pending l) (l_max_ever l)
   | RSettings false s =>
-      let i := match last_setting 4 s None with Some v => Z.of_N v | None => l_init l end in
       let m := match last_setting 5 s None with Some v => v | None => l_max_cur l end in
-      mkLed i (l_conn l) (l_adj l) m (l_max_acked l) (l_max_pending l ++ [m]) (N.max m (l_max_ever l))
+      mkSl m (l_max_acked l) (l_max_pending l ++ [m]) (N.max m (l_max_ever l))
   | _ => l
   end.
 
-(* endpoint x received frame f: (ledger, window respected, size within the largest value ever announced,
-   size within what it must still tolerate) *)
-Definition led_recv (l : led) (f : wframe) : led * (bool * bool * bool) :=
-  let sz_ever := payload_len f <=? l_max_ever l in
-  let sz_tol := payload_len f <=? led_tolerated l in
+(* (ledger, size within the largest value ever announced, size within what must still be tolerated) *)
+Definition sl_recv (l : sled) (f : wframe) : sled * (bool * bool) :=
+  let fl := (payload_len f <=? l_max_ever l, payload_len f <=? led_tolerated l) in
   match f with
-  | WData id _ d =>
-      let n := Z.of_N (len d) in
-      (mkLed (l_init l) (l_conn l - n)%Z (zadd id (- n)%Z (l_adj l)) (l_max_cur l) (l_max_acked l) (l_max_pending l) (l_max_ever l),
-       ((n <=? l_conn l)%Z && (n <=? led_window l id)%Z, sz_ever, sz_tol))
   | WSettingsAck =>
       (match l_max_pending l with
        | [] => l
-       | m :: r => mkLed (l_init l) (l_conn l) (l_adj l) (l_max_cur l) m r (l_max_ever l)
-       end, (true, sz_ever, sz_tol))
-  | _ => (l, (true, sz_ever, sz_tol))
+       | m :: r => mkSl (l_max_cur l) m r (l_max_ever l)
+       end, fl)
+  | _ => (l, fl)
   end.
 
-Fixpoint led_recv_all (l : led) (fs : list wframe) : led * (bool * bool * bool) :=
+Fixpoint sl_recv_all (l : sled) (fs : list wframe) : sled * (bool * bool) :=
   match fs with
-  | [] => (l, (true, true, true))
+  | [] => (l, (true, true))
   | f :: r =>
-      let '(l1, (a1, b1, c1)) := led_recv l f in
-      let '(l2, (a2, b2, c2)) := led_recv_all l1 r in
-      (l2, (a1 && a2, b1 && b2, c1 && c2))
+      let '(l1, (b1, c1)) := sl_recv l f in
+      let '(l2, (b2, c2)) := sl_recv_all l1 r in
+      (l2, (b1 && b2, c1 && c2))
   end.
 
-(* one trace step seen from endpoint x: first what x sent (if the event is x's), then what x was sent *)
-Definition led_step (x : side) (l : led) (t : tstep) : led * (bool * bool * bool) :=
-  let l1 := if side_eqb (e_from (t_ev t)) x then led_sent l (e_frame (t_ev t)) else l in
-  led_recv_all l1 (frames_to x t).
+Definition sl_step (x : side) (l : sled) (t : tstep) : sled * (bool * bool) :=
+  let l1 := if side_eqb (e_from (t_ev t)) x then sl_sent l (e_frame (t_ev t)) else l in
+  sl_recv_all l1 (frames_to x t).
 
-Fixpoint led_run (x : side) (l : led) (tr : list tstep) : led * (bool * bool * bool) :=
+Fixpoint sl_run (x : side) (l : sled) (tr : list tstep) : sled * (bool * bool) :=
   match tr with
-  | [] => (l, (true, true, true))
+  | [] => (l, (true, true))
   | t :: r =>
-      let '(l1, (a1, b1, c1)) := led_step x l t in
-      let '(l2, (a2, b2, c2)) := led_run x l1 r in
-      (l2, (a1 && a2, b1 && b2, c1 && c2))
+      let '(l1, (b1, c1)) := sl_step x l t in
+      let '(l2, (b2, c2)) := sl_run x l1 r in
+      (l2, (b1 && b2, c1 && c2))
   end.
 
-Definition windows_respected (x : side) (tr : list tstep) : bool := fst (fst (snd (led_run x led0 tr))).
-Definition sizes_within_announced (x : side) (tr : list tstep) : bool := snd (fst (snd (led_run x led0 tr))).
-Definition sizes_within_tolerated (x : side) (tr : list tstep) : bool := snd (snd (led_run x led0 tr)).
-Definition final_ledger (x : side) (tr : list tstep) : led := fst (led_run x led0 tr).
+Definition sizes_within_announced (x : side) (tr : list tstep) : bool := fst (snd (sl_run x sled0 tr)).
+Definition sizes_within_tolerated (x : side) (tr : list tstep) : bool := snd (snd (sl_run x sled0 tr)).
 
 (* ------------------------------------------------- returned credit (C09 c) *)
 (* WINDOW_UPDATE frames among fs, as (stream, increment) *)
@@ -157,7 +193,7 @@ Definition credit_returned (tr : list tstep) : bool := forallb credit_step tr.
 
 (* no step diverged (the relay answered every frame in finite time) *)
 Definition no_divergence (tr : list tstep) : bool :=
-  forallb (fun t => match t_status t with Diverge => false | Panic => false | _ => true end) tr.
+  forallb (fun t => match t_status t with Diverge => false | _ => true end) tr.
 
 (* ------------------------------------------------ stream content (C10) *)
 Inductive elem :=
